@@ -433,6 +433,13 @@ class Executor:
         named = getattr(self, "const_values", None)
         if named and t.strip() in named:
             return named[t.strip()]               # integer `const` item of the crate, value read from its source by the kernel
+        # a `const` item of the crate whose body is in the dump (e.g. a constant local to a function): evaluate its MIR.  The dump
+        # names it without the leading module path
+        cand = t.strip()
+        while "::" in cand:
+            if cand in self.mf.items and re.match(r"^[A-Za-z_][A-Za-z0-9_:]*$", cand) and cand.rsplit("::", 1)[-1].isupper():
+                return self.eval_const_item(st, cand)
+            cand = cand.split("::", 1)[1]
         return Opaque("const", t)
 
     def eval_const_item(self, st, name):
